@@ -568,6 +568,16 @@ def adj_maze_set(name, tier):
         return [L(11, 11, structured(11)[0])]
     if name == "big50":
         return [L(50, 50, structured(50)[0])]
+    if name in ("big13", "big16"):
+        # flat cell indices beyond 127 / 255 (narrow integer types), one structured maze and one fixed irregular bit pattern
+        n = int(name[3:])
+        E = len(R.lattice_edges(n, n))
+        x, bits = 0x2545F491, 0
+        for k in range(E):
+            x = (x * 1103515245 + 12345) & 0x7FFFFFFF
+            if (x >> 16) & 1:
+                bits |= 1 << k
+        return [L(n, n, structured(n)[0]), L(n, n, bits)]
     raise KeyError(name)
 
 
@@ -965,6 +975,8 @@ def plan(tier):
         T_.append(dict(sweep="adj", mazes="g44", progs=pr, rng=False))
     for pr in chunks(nA, 24):
         T_.append(dict(sweep="adj", mazes="big11", progs=pr, rng=False))
+        T_.append(dict(sweep="adj", mazes="big13", progs=pr, rng=False, coords=[0, 1]))
+        T_.append(dict(sweep="adj", mazes="big16", progs=pr, rng=False, coords=[0, 8] if quick else None))
     for pr in chunks(nP, 24):
         T_.append(dict(sweep="path", mazes="s22q" if quick else "s22", progs=pr))
         T_.append(dict(sweep="path", mazes="s11", progs=pr))
